@@ -98,6 +98,183 @@ theorem handed_ok_iff (g : Bool) (s : Stream ε ρ) :
 
 end
 
+/-! ### ORDER BY: the sort keys of EVERY collected row are checked, whatever the number of rows -/
+
+section orderkeys
+variable {χ ρ ν ε κ α : Type}
+
+theorem orderByT_run_ok (S : Sem χ ρ ν ε κ α) (Q : Quirks) (site : Site) (env : ρ) (keys : List (χ × Bool))
+    (rows : List ρ) (acc : Stream ε ρ) (n : Nat) :
+    (orderByT S Q LimEnv.unlimited site env keys).run ⟨acc, n, false⟩ (rows.map .ok) =
+      orderByFinish S Q LimEnv.unlimited env keys (acc.reverse ++ rows.map .ok) := by
+  induction rows generalizing acc n with
+  | nil => simp [Trans.run, orderByT]
+  | cons r rs ih =>
+    simp only [List.map_cons, Trans.run_cons]
+    have hstep : (orderByT S Q LimEnv.unlimited site env keys).step ⟨acc, n, false⟩ (.ok r) =
+        (⟨.ok r :: acc, n + 1, false⟩, []) := by
+      cases h : Q.orderByKeepsErr <;> simp [orderByT, LimEnv.unlimited, h]
+    have hdone : (orderByT S Q LimEnv.unlimited site env keys).done ⟨acc, n, false⟩ = false := rfl
+    rw [hdone, hstep]
+    simp only [Bool.false_eq_true, if_false, List.nil_append]
+    rw [ih]
+    simp
+
+theorem mapM_first_error {β γ : Type} (f : β → Except ε γ) (pre : List β) (x : β) (post : List β) (e : ε)
+    (hpre : ∀ y ∈ pre, ∃ z, f y = .ok z) (hx : f x = .error e) :
+    (pre ++ x :: post).mapM f = .error e := by
+  induction pre with
+  | nil => simp [List.mapM_cons, hx, bind, Except.bind]
+  | cons y ys ih =>
+    obtain ⟨z, hz⟩ := hpre y List.mem_cons_self
+    simp only [List.cons_append, List.mapM_cons, hz, bind, Except.bind]
+    rw [ih (fun w hw => hpre w (List.mem_cons_of_mem _ hw))]
+
+/-- a sort key that fails on some collected row makes ORDER BY answer exactly that error — for an
+    input of ANY length ≥ 1 (one row included), wherever the failing row stands -/
+theorem orderBy_key_error (S : Sem χ ρ ν ε κ α) (Q : Quirks) (hq : Q.orderByKeepsErr = false) (site : Site)
+    (env : ρ) (keys : List (χ × Bool)) (pre : List ρ) (r : ρ) (post : List ρ) (e : ε)
+    (hpre : ∀ x ∈ pre, ∃ ks, orderKeys S LimEnv.unlimited env keys x = .ok ks)
+    (hr : orderKeys S LimEnv.unlimited env keys r = .error e) :
+    (orderByT S Q LimEnv.unlimited site env keys).run ⟨[], 0, false⟩ ((pre ++ r :: post).map .ok) = [.error e] := by
+  rw [orderByT_run_ok]
+  simp only [List.reverse_nil, List.nil_append, orderByFinish, hq, Bool.false_eq_true, if_false]
+  have : ((pre ++ r :: post).map (Except.ok (ε := ε))).mapM (keyedRow S LimEnv.unlimited env keys) = .error e := by
+    rw [List.map_append, List.map_cons]
+    apply mapM_first_error
+    · intro y hy
+      obtain ⟨x, hx, rfl⟩ := List.mem_map.1 hy
+      obtain ⟨ks, hks⟩ := hpre x hx
+      exact ⟨(x, ks), by simp [keyedRow, hks, Except.map]⟩
+    · simp [keyedRow, hr, Except.map]
+  rw [this]
+
+end orderkeys
+
+/-! ### parked failures (`parkT`) -/
+
+section park
+variable {σ ε ρ : Type}
+
+theorem parkT_errFwd (t : Trans σ ε ρ) (hf : ErrFwd t) (parks : σ → Except ε ρ → Option ε)
+    (fp : σ → Option ε) (drop : Bool) : ErrFwd (parkT t parks fp drop) := by
+  intro st e hd
+  obtain ⟨e', rest, he⟩ := hf st.1 e hd
+  simp only [parkT]
+  cases firstSome st.2 (parks st.1 (.error e)) with
+  | none => exact ⟨e', rest, he⟩
+  | some e2 => rw [he]; exact ⟨e2, rest, rfl⟩
+
+theorem parkT_run_cons (t : Trans σ ε ρ) (parks : σ → Except ε ρ → Option ε) (fp : σ → Option ε) (drop : Bool)
+    (st : σ) (pend : Option ε) (x : Except ε ρ) (xs : Stream ε ρ) (hd : t.done st = false) :
+    (parkT t parks fp drop).run (st, pend) (x :: xs) =
+      ((parkT t parks fp drop).step (st, pend) x).2 ++
+        (parkT t parks fp drop).run ((parkT t parks fp drop).step (st, pend) x).1 xs := by
+  rw [Trans.run_cons]
+  have : (parkT t parks fp drop).done (st, pend) = false := hd
+  rw [this]; simp
+
+/-- operators that never say `done` (Project, Unwind): if the `d` items handed out are all `Ok`,
+    nothing was pending and no pulled row parked a failure — wherever the stream ends -/
+theorem park_ok_of_never_done (t : Trans σ ε ρ) (hnd : ∀ st, t.done st = false)
+    (parks : σ → Except ε ρ → Option ε) (fp : σ → Option ε) :
+    ∀ (s : Stream ε ρ) (st : σ) (pend : Option ε) (d : Nat), d ≠ 0 →
+      allOk (((parkT t parks fp false).run (st, pend) s).take d) = true →
+      pend = none ∧ parkEvents t parks fp st s d = [] := by
+  intro s
+  induction s with
+  | nil =>
+    intro st pend d hd h
+    rw [Trans.run_nil] at h
+    simp only [parkT, hnd st, Bool.false_eq_true, if_false] at h
+    simp only [parkEvents, hnd st, hd, Bool.false_eq_true, or_self, if_false]
+    obtain ⟨d', rfl⟩ := Nat.exists_eq_succ_of_ne_zero hd
+    cases pend with
+    | some e => cases hfl : t.flush st <;> simp [firstSome, hfl, List.take_succ_cons] at h
+    | none =>
+      cases hfp : fp st with
+      | none => exact ⟨rfl, rfl⟩
+      | some e => cases hfl : t.flush st <;> simp [firstSome, hfp, hfl, List.take_succ_cons] at h
+  | cons x xs ih =>
+    intro st pend d hd h
+    rw [parkT_run_cons _ _ _ _ _ _ _ _ (hnd st)] at h
+    simp only [parkEvents, hnd st, hd, Bool.false_eq_true, or_self, if_false]
+    obtain ⟨d', rfl⟩ := Nat.exists_eq_succ_of_ne_zero hd
+    simp only [parkT] at h
+    cases hfs : firstSome pend (parks st x) with
+    | some e =>
+      rw [hfs] at h
+      cases hout : (t.step st x).2 with
+      | nil =>
+        rw [hout] at h
+        simp only [List.nil_append] at h
+        exact absurd (ih _ (some e) (d' + 1) (by omega) h).1 (by simp)
+      | cons y ys =>
+        rw [hout] at h
+        simp [List.take_succ_cons] at h
+    | none =>
+      rw [hfs] at h
+      simp only at h
+      have hp : pend = none ∧ parks st x = none := by
+        cases pend with
+        | some e => simp [firstSome] at hfs
+        | none => exact ⟨rfl, by simpa [firstSome] using hfs⟩
+      refine ⟨hp.1, ?_⟩
+      rw [hp.2]
+      simp only [Option.toList, List.nil_append]
+      split
+      · rfl
+      · rename_i hlen
+        rw [List.take_append] at h
+        simp only [allOk_append, Bool.and_eq_true] at h
+        exact (ih _ none _ (by omega) h.2).2
+
+/-- blocking operators (OrderBy, Aggregate: failures are parked only by the work done once the
+    input is exhausted): the same -/
+theorem park_ok_of_flush_only (t : Trans σ ε ρ) (fp : σ → Option ε) :
+    ∀ (s : Stream ε ρ) (st : σ) (d : Nat),
+      allOk (((parkT t (fun _ _ => none) fp false).run (st, none) s).take d) = true →
+      parkEvents t (fun _ _ => none) fp st s d = [] := by
+  intro s
+  induction s with
+  | nil =>
+    intro st d h
+    simp only [parkEvents]
+    split
+    · rfl
+    · rename_i hnd
+      have hd0 : d ≠ 0 := fun h0 => hnd (Or.inl h0)
+      have hdone : t.done st = false := by
+        cases hdn : t.done st with
+        | false => rfl
+        | true => exact absurd (Or.inr hdn) hnd
+      rw [Trans.run_nil] at h
+      simp only [parkT, hdone, Bool.false_eq_true, if_false, firstSome] at h
+      obtain ⟨d', rfl⟩ := Nat.exists_eq_succ_of_ne_zero hd0
+      cases hfp : fp st with
+      | none => rfl
+      | some e => cases hfl : t.flush st <;> simp [hfp, hfl, List.take_succ_cons] at h
+  | cons x xs ih =>
+    intro st d h
+    simp only [parkEvents]
+    split
+    · rfl
+    · rename_i hnd
+      have hdone : t.done st = false := by
+        cases hdn : t.done st with
+        | false => rfl
+        | true => exact absurd (Or.inr hdn) hnd
+      rw [parkT_run_cons _ _ _ _ _ _ _ _ hdone] at h
+      simp only [parkT, firstSome] at h
+      simp only [Option.toList, List.nil_append]
+      split
+      · rfl
+      · rw [List.take_append] at h
+        simp only [allOk_append, Bool.and_eq_true] at h
+        exact ih _ _ h.2
+
+end park
+
 /-! ### the tree: everything handed over is `Ok` when the root hands out only `Ok` items -/
 
 section
@@ -106,7 +283,7 @@ variable {χ ρ ν ε κ α : Type} [DecidableEq κ]
 /-- the operators of `Q` are the repaired ones as far as `Err` items are concerned -/
 def Quirks.forwardsErr (Q : Quirks) : Prop :=
   Q.distinctDropsErr = false ∧ Q.unionDropsErr = false ∧ Q.skipDropsErr = false ∧
-  Q.orderByKeepsErr = false ∧ Q.existsSwallowsErr = false
+  Q.orderByKeepsErr = false ∧ Q.existsSwallowsErr = false ∧ Q.guardDropsFailureAtEnd = false
 
 instance (Q : Quirks) : Decidable Q.forwardsErr := by unfold Quirks.forwardsErr; infer_instance
 
@@ -129,6 +306,27 @@ theorem unaryTrace_ok {σ : Type} (L : LimEnv ε) (site : Site) (t : Trans σ ε
   · exact (handed_ok_iff false _).2 h2 x hx
   · exact ih _ h2 x hx
 
+theorem parkEvents_zero {σ : Type} (t : Trans σ ε ρ) (parks : σ → Except ε ρ → Option ε) (fp : σ → Option ε)
+    (st : σ) (s : Stream ε ρ) : parkEvents t parks fp st s 0 = [] := by
+  cases s <;> simp [parkEvents]
+
+theorem parkTrace_ok {σ : Type} (L : LimEnv ε) (site : Site) (t : Trans σ ε ρ) (hf : ErrFwd t)
+    (parks : σ → Except ε ρ → Option ε) (fp : σ → Option ε)
+    (hpark : ∀ (s : Stream ε ρ) (st : σ) (d : Nat), d ≠ 0 →
+      allOk (((parkT t parks fp false).run (st, none) s).take d) = true → parkEvents t parks fp st s d = [])
+    (st : σ) (c : Stream ε ρ) (childTrace : Nat → List (Handed ε ρ)) (d : Nat)
+    (ih : ∀ d', allOk (c.take d') = true → ∀ x ∈ childTrace d', Item.isOk x.item = true)
+    (h : allOk ((guard L site ((parkT t parks fp false).run (st, none) c)).take d) = true) :
+    ∀ x ∈ parkTrace L site t parks fp false st c childTrace 0 d, Item.isOk x.item = true := by
+  intro x hx
+  simp only [parkTrace, List.mem_append] at hx
+  rcases hx with hx | hx
+  · exact unaryTrace_ok L site _ (parkT_errFwd t hf parks fp false) _ _ _ d ih h x hx
+  · obtain ⟨h1, _⟩ := unary_pulled_ok L site _ (parkT_errFwd t hf parks fp false) (st, none) c d h
+    by_cases hd : guardNeed L site ((parkT t parks fp false).run (st, none) c) d = 0
+    · rw [hd, parkEvents_zero] at hx; simp at hx
+    · rw [hpark c st _ hd h1] at hx; simp at hx
+
 omit [DecidableEq κ] in
 theorem joinItem_isOk (S : Sem χ ρ ν ε κ α) (l : ρ) (x : Except ε ρ) :
     Item.isOk (joinItem S l x) = Item.isOk x := by
@@ -140,7 +338,7 @@ theorem trace_ok (S : Sem χ ρ ν ε κ α) (Q : Quirks) (hq : Q.forwardsErr) (
     (p : Plan χ ρ ε α) : ∀ (site : Site) (env : ρ) (d : Nat),
     allOk ((runL S Q L site env p).take d) = true →
     ∀ x ∈ trace false S Q L site env p d, Item.isOk x.item = true := by
-  obtain ⟨hq1, hq2, hq3, hq4, hq5⟩ := hq
+  obtain ⟨hq1, hq2, hq3, hq4, hq5, hq6⟩ := hq
   induction p with
   | source items => intro site env d h; exact leafTrace_ok L site items d h
   | arg => intro site env d h; exact leafTrace_ok L site _ d h
@@ -149,14 +347,18 @@ theorem trace_ok (S : Sem χ ρ ν ε κ α) (Q : Quirks) (hq : Q.forwardsErr) (
     exact unaryTrace_ok L site _ (mapT_errFwd _) _ _ _ d (ih _ _) h
   | project projs inp ih =>
     intro site env d h
-    exact unaryTrace_ok L site _ (mapT_errFwd _) _ _ _ d (ih _ _) h
+    simp only [runL, trace, hq6] at h ⊢
+    exact parkTrace_ok L site _ (mapT_errFwd _) _ _
+      (fun s st d' hd' h' => (park_ok_of_never_done _ (fun _ => rfl) _ _ s st none d' hd' h').2) _ _ _ d (ih _ _) h
   | distinct inp ih =>
     intro site env d h
     simp only [runL, trace, hq1] at h ⊢
     exact unaryTrace_ok L site _ (distinctT_errFwd S) _ _ _ d (ih _ _) h
   | unwind e alias inp ih =>
     intro site env d h
-    exact unaryTrace_ok L site _ (flatMapT_errFwd _) _ _ _ d (ih _ _) h
+    simp only [runL, trace, hq6] at h ⊢
+    exact parkTrace_ok L site _ (flatMapT_errFwd _) _ _
+      (fun s st d' hd' h' => (park_ok_of_never_done _ (fun _ => rfl) _ _ s st none d' hd' h').2) _ _ _ d (ih _ _) h
   | expand f inp ih =>
     intro site env d h
     exact unaryTrace_ok L site _ (flatMapT_errFwd _) _ _ _ d (ih _ _) h
@@ -174,10 +376,14 @@ theorem trace_ok (S : Sem χ ρ ν ε κ α) (Q : Quirks) (hq : Q.forwardsErr) (
     | ok k => rw [hw] at h; exact unaryTrace_ok L site _ limitT_errFwd _ _ _ d (ih _ _) h
   | orderBy keys inp ih =>
     intro site env d h
-    exact unaryTrace_ok L site _ (orderByT_errFwd S Q hq4 L site env keys) _ _ _ d (ih _ _) h
+    simp only [runL, trace, hq6] at h ⊢
+    exact parkTrace_ok L site _ (orderByT_errFwd S Q hq4 L site env keys) _ _
+      (fun s st d' _ h' => park_ok_of_flush_only _ _ s st d' h') _ _ _ d (ih _ _) h
   | aggregate groupBy aggs inp ih =>
     intro site env d h
-    exact unaryTrace_ok L site _ (aggregateT_errFwd S L site env groupBy aggs) _ _ _ d (ih _ _) h
+    simp only [runL, trace, hq6] at h ⊢
+    exact parkTrace_ok L site _ (aggregateT_errFwd S L site env groupBy aggs) _ _
+      (fun s st d' _ h' => park_ok_of_flush_only _ _ s st d' h') _ _ _ d (ih _ _) h
   | union all l r ihl ihr =>
     intro site env d h
     simp only [runL, trace, hq2] at h ⊢
